@@ -781,6 +781,14 @@ O(id='SEQUENCE_decode_xer.grid', props=['C03', 'C04', 'C05', 'C14'], kind='nativ
   bound='native grid under ASan/UBSan/LSan with the assertions of h_seq_xer.c: SEQUENCE { a, b OPTIONAL, c, ..., d OPTIONAL } whose members decode with the real xer_decode_general: "<T>" + every concatenation of at most 4 of 13 fragments (members in and out of order, unknown additions, whitespace, comments, stray tags) x every truncation x every two-chunk split',
   timeout=1500)
 
+for _g, _h, _fn, _pr, _bd in (
+    ('SET_OF_decode_ber.grid', 'harness/grid_setof_ber.c', ['SET_OF_decode_ber', 'SET_OF_free', 'asn_set_add', 'ber_check_tags'], ['C03', 'C04', 'C05', 'C14', 'C15'], '5 outer length forms x every sequence of at most 5 of 7 TLV templates'),
+    ('SET_decode_ber.grid', 'harness/grid_set_ber.c', ['SET_decode_ber', 'SET_free', '_SET_is_populated', 'ber_check_tags'], ['C03', 'C04', 'C05', 'C14'], '5 outer length forms x every sequence of at most 4 of 7 TLV templates (components in every order, duplicates)'),
+    ('CHOICE_decode_ber.grid.v0', 'harness/grid_choice_ber0.c', ['CHOICE_decode_ber', 'CHOICE_free'], ['C03', 'C04', 'C05', 'C14'], 'untagged CHOICE: every sequence of at most 3 of 7 TLV templates'),
+    ('CHOICE_decode_ber.grid.v1', 'harness/grid_choice_ber1.c', ['CHOICE_decode_ber', 'CHOICE_free', 'ber_check_tags'], ['C03', 'C04', 'C05', 'C14'], '[0] EXPLICIT CHOICE: 5 outer length forms x every sequence of at most 3 of 7 TLV templates (incl. 00 01 where end-of-contents is expected)')):
+    O(id=_g, props=_pr, kind='native', harness=_h, entry='main', functions=_fn, no_canary=True,
+      bound='native grid under ASan/UBSan/LSan with the assertions of the CBMC harness of the same decoder: ' + _bd + ' x every truncation x every two-chunk split', timeout=1500)
+
 for _o in OBLIGATIONS:
     if _o.get('enforce') and _o.get('kind') in ('enforce', 'width') and _o.get('tier') == 'quick' and 'C19' not in _o['props']:
         _o['props'] = _o['props'] + ['C19']
